@@ -6,6 +6,16 @@ HERE = os.path.dirname(os.path.dirname(os.path.abspath(__file__)))
 ALL = ["C%02d" % i for i in range(1, 21)]
 
 CLAIMED = {
+ "C12": dict(
+   technique="TLA+ case-table model QuadCfg.tla (transform choice and evaluation counts for every form of the limits) enumerated by TLC and executed row by row on the real quad with a counting integrand; the quadrature rule itself extracted with indicator-valued integrands and checked through Legendre orthogonality",
+   text="TLC enumerates limit kinds {number, tensor, tensor requiring grad} x {finite, infinite} for both limits x n given/default and predicts the change of variables and the number of integrand evaluations (one probe + n nodes); every row is executed and compared (counts, nodes inside the interval, value against the closed form). For n in 1..12, 50, 100 (200, 300 thorough) x 6 intervals (both orientations, tiny to large) x limits as numbers/tensors the result of an indicator-valued integrand IS the weight vector and the call log the node vector: exactly n nodes, symmetric, inside, and sum_i w_i P_k(x_i) = 2 delta_k0 for all k <= 2n-1 (exactness to degree 2n-1 in a well-conditioned form). Polynomials of degree 2n-1: exact, sign change on swapped limits, additivity over adjacent intervals, linearity; tuple-valued integrands component-wise; infinite limits: nodes are tan of the Gauss nodes on (atan xl, atan xu) and Gaussian integrals are reproduced to 1e-9.",
+   design_ref="5.9, 6 (C12)",
+   note="Trusted: TLC/SANY, numpy's Legendre recurrence in the harness, closed-form error-function integrals. The exactness degree for n >= 2 is a numeric verdict (irrational nodes), not a TLC computation."),
+ "C13": dict(
+   technique="TLA+ case-table model QuadCfg.tla (backward part: evaluation counts with the provenance of n, gradient pattern, no error for any form of the limits or unused tensors) enumerated by TLC (288 rows) and executed row by row on the real quad; gradient values compared with the same Gauss rule applied to the closed-form derivative and with the Leibniz rule, first and second order",
+   text="For every combination of limit kinds, infinite limits, n given/default, bck_options given/absent and presence of an unused tensor TLC predicts: the backward pass never raises, evaluates the integrand (tensor limits + probe + n_bck) times with n_bck from bck_options when given and from the forward options otherwise, limits get a gradient iff they require one; three deviations (options not forwarded, limit kind forgotten, unused tensors rejected) are caught. Each row is executed with a counting integrand: no exception, count as predicted, d/da equal to the n_bck-point rule applied to the closed-form derivative (1e-9), Leibniz terms +f(xu), -f(xl) (1e-12), zero/None for the unused tensor. An EditableModule method with a used and an unused held tensor is integrated for several (n, bck n, limits) with first- and second-order checks.",
+   design_ref="5.9, 6 (C13)",
+   note="Trusted: TLC/SANY; plain-torch Gauss rule (numpy nodes) as reference. The count of limit evaluations is modelled as the code does it (one per tensor limit, whether or not it requires grad)."),
  "C08": dict(
    technique="TLA+ model IvpAdjoint.tla of the adjoint segment loop checked exhaustively by TLC; backward passes observed through a probing callable supplied as the backward method (time pair, augmented state, options of every segment) validated by TLC against Trace_IvpAdjoint.tla, with gradients of first and second order compared with autograd through closed-form solutions in the final event",
    text="TLC checks for nt <= 4 and both ts.requires_grad settings: one segment per interval, newest first, y re-seeded from the stored forward value at every segment, every output's cotangent added exactly once, segments integrated with the backward options, time gradients recorded for every index iff ts requires grad; three deviations are caught. Real backward passes (two ODE families x 4 grids incl. decreasing and ragged x requires-grad subsets x cotangents on one/all outputs x explicit/object-held parameter) run with a probing backward method must match the model segment by segment: interval indices, y part bit-equal to the stored forward value, dL/dy part equal to the propagated cotangents (matrix-exponential reference), backward option present. ~60 further runs with the built-in backward for all five forward methods check values and gradients w.r.t. y0, parameter, every requested time (incl. ts[0]) and second order against autograd through the closed forms, zero/absent gradient for an unused parameter.",
